@@ -494,7 +494,8 @@ pub fn worker_main(def: &CheckDef, ctx: &Ctx, from_round: u32) {
     let mut g = 0u32;
     for part in &def.parts {
         for r in 0..part.rounds {
-            if g >= from_round {
+            let only = std::env::var("VERIF_ONLY_PART").ok();
+            if g >= from_round && only.as_deref().is_none_or(|o| o == part.name) {
                 ctx.begin_part(part.name);
                 (part.run)(ctx, r);
                 let st = ctx.take_stats();
@@ -542,7 +543,7 @@ fn spawn_worker(
         .env("NO_COLOR", "1")
         .stdin(Stdio::null())
         .stdout(Stdio::piped())
-        .stderr(Stdio::null())
+        .stderr(Stdio::inherit())
         .spawn()
         .unwrap_or_else(|e| {
             eprintln!("harness error: cannot spawn worker: {e}");
